@@ -73,6 +73,7 @@ import (
 	"os/exec"
 	"path/filepath"
 	"regexp"
+	"runtime"
 	"sort"
 	"strconv"
 	"strings"
@@ -165,7 +166,8 @@ func verifC36History() []verifC36Op {
 }
 
 // verifC36Reader is a RewindReader that deliberately has no WriteTo, so that io.Copy in
-// local.Save uses its 32 KiB buffer and larger files are written in several write(2) calls.
+// local.Save uses its 32 KiB buffer and larger files are written in several write(2) calls
+// (used for the pack files; config and snapshot files go through backend.NewByteReader).
 type verifC36Reader struct {
 	buf []byte
 	pos int
@@ -197,6 +199,9 @@ func verifC36Child(t *testing.T) {
 	markDir := os.Getenv("VERIF_C36_MARK")
 	logPath := os.Getenv("VERIF_C36_LOG")
 	ctx := context.Background()
+	// one OS thread for the whole history: strace counts `when=K` of a fault injection per thread, so the
+	// K-th fsync of the history is only well defined if every fsync is issued by the same thread
+	runtime.LockOSThread()
 	mark := func(k string, i int) { _, _ = os.Lstat(filepath.Join(markDir, fmt.Sprintf("%s%d", k, i))) }
 	be, err := local.Open(ctx, local.Config{Path: dir, Connections: 2}, nil)
 	if err != nil {
@@ -210,7 +215,13 @@ func verifC36Child(t *testing.T) {
 		var err error
 		switch op.Kind {
 		case "save":
-			err = be.Save(ctx, hs[op.H].H, &verifC36Reader{buf: hs[op.H].Vers[op.Ver]})
+			if hs[op.H].H.Type == backend.PackFile {
+				err = be.Save(ctx, hs[op.H].H, &verifC36Reader{buf: hs[op.H].Vers[op.Ver]})
+			} else {
+				// config, snapshot: the reader restic itself uses for unpacked files (it has WriteTo, so
+				// io.Copy hands the whole content to the file's Write in one call)
+				err = be.Save(ctx, hs[op.H].H, backend.NewByteReader(hs[op.H].Vers[op.Ver], nil))
+			}
 		case "remove":
 			err = be.Remove(ctx, hs[op.H].H)
 		case "list":
